@@ -152,6 +152,25 @@ CLAIMED["C16"] = dict(
    note="integer parameters and quarter turns only; blend and loft interiors and general angles are outside the exact model",
    technique="TLA+ exact geometric semantics (TLC) + TLC-enumerated shape terms replayed into the real library + TLA+ trace validation",
    design_ref="DESIGN.md section 3 C16")
+CLAIMED["C18"] = dict(
+   text="Canvas.tla models the 2D canvas exactly in dyadic rationals (view matrix, drag handle, changed flags) and TLC exhausts every event "
+        "sequence of the bound (begin/drag/end drag, zoom with and without cursor, resize, interleaved); the same model emits every "
+        "sequence, which the harness replays on the real Canvas2 with power-of-two sizes and integer cursors; Trace_C18 replays the exact "
+        "model statefully next to the recording and requires bit-equal view matrices and flags; random float sequences on Canvas2 and "
+        "Canvas3 are judged (point under the cursor stays put, pan tracks the cursor, flags equal bitwise change).",
+   note="exact clauses are dyadic (sizes 2^k, scroll multiples of 100); 3D rotation and float sequences are judged with stated tolerances",
+   technique="TLA+ exact model (TLC exhaustive) + TLC-generated event sequences replayed into the real Canvas + stateful TLA+ trace validation",
+   design_ref="DESIGN.md section 3 C18")
+CLAIMED["C19"] = dict(
+   text="Solver.tla models the Jacobian assembly (three unknowns per gradient sample, per-tape slot lookup, fixed parameters as constants, "
+        "result keyed by the free set; free set may be empty) and TLC exhausts every assignment of roles and tape layouts in the bound; the "
+        "harness calls the real solver on consistent diagonally dominant integer systems with 1..40 parameters, random fixed subsets "
+        "(incl. all fixed), free parameters no equation mentions, equations over different subsets, interpreter and JIT; Trace_C19 requires: "
+        "normal return, keys = free set, every hook-recorded Jacobian entry equals the integer coefficient exactly, an exactly satisfied "
+        "start returned bit for bit, small residual and nearness to the unique solution (judged in f64).",
+   note="residual/nearness are judged (1e-3 / 1e-2); solves still iterating after 1e5 iterations are abandoned and reported as drift, not judged",
+   technique="TLA+ design model (TLC exhaustive) + real solver driven on generated systems with hook-recorded Jacobians + TLA+ trace validation",
+   design_ref="DESIGN.md section 3 C19")
 NOT_YET = {}
 props = [json.loads(l) for l in open(os.path.join(ROOT, "properties.jsonl"))]
 m = {
@@ -161,7 +180,7 @@ m = {
    "guard": "fidget_verif",
    "enable": "RUSTFLAGS=\"--cfg fidget_verif --check-cfg cfg(fidget_verif)\" (set in /verif/harness/.cargo/config.toml; never in /repo)",
    "baseline_off_cmd": "cd /repo && cargo nextest run --workspace --no-fail-fast --test-threads 8 --offline || cargo test --workspace --no-fail-fast --offline",
-   "source_commits": ["16ce250", "849e604", "9be9fb2"],
+   "source_commits": ["16ce250", "849e604", "9be9fb2", "70c2606"],
    "add_only": True,
  },
  "engines": [{"name": "vcheck", "path": "bin/vcheck", "serves_properties": sorted(CLAIMED),
